@@ -1,6 +1,7 @@
 import Pff.Props.RSSpec
 import Pff.Props.C11
 import Pff.Props.C12
+import Pff.Proofs.RSGuard
 /-!
 # C02 — the Reed–Solomon facade corrects every pattern within its capacity
 
@@ -75,5 +76,36 @@ theorem C02_decode_exact_erasures (c : Codec F) (hc : GoodCodec c) (core : Core 
             ≤ c.n - effK c k) :
     decode core c msg' ecc' k true ec false = .ok (msg, encode c msg k) := by
   exact Pff.RSProofs.decode_exact_erasures c hc core hW msg k hm hk msg' ecc' hl he ec hcap
+
+/-- **No contract assumed**: whatever the third-party decoder `core` returns, a successful
+`decode` that consulted it made corrections within the capacity of the code — counted on the
+padded received word handed to the library: `2·(corrected positions outside the erasure list) +
+(erasures) ≤ n−k`.  (The guard added to `ECCMan.decode` by the repair of the miscorrection
+defect; before it, a beyond-capacity result of the library — another valid codeword — was
+returned as a successful repair.) -/
+theorem C02_decode_within_radius (c : Codec F) (core : Core F) (msg ecc : List F) (k : Nat)
+    (en : Bool) (ec : F) (oe : Bool) (call : CoreCall F) (m' e' : List F)
+    (hprep : prepareDecode c msg ecc k en ec oe = some call)
+    (hdec : decode core c msg ecc k en ec oe = .ok (m', e')) :
+    ∃ mr er, m' = mr.drop call.padLen ∧ e' = er ∧
+      2 * correctedErrors call.word (mr ++ er) (call.erasePos.getD []) + (call.erasePos.getD []).length ≤ call.nsym := by
+  exact Pff.RSProofs.decode_within_radius c core msg ecc k en ec oe call m' e' hprep hdec
+
+/-- the erasure positions `decode` detects on the received `message ++ ecc` (none when erasure
+handling is off; `--only_erasures` alone turns it on, as repaired) -/
+def detectedErasures (msg ecc : List F) (en oe : Bool) (ec : F) : List Nat :=
+  if en || oe then (List.range (msg ++ ecc).length).filter (fun i => (msg ++ ecc)[i]? = some ec) else []
+
+/-- Full-length blocks (no padding), any decoder: the repaired message and parity returned by a
+successful `decode` differ from the received ones within the capacity of the code, or are the
+received ones themselves (early return of the only-erasures mode). -/
+theorem C02_decode_full_block_within_radius (c : Codec F) (core : Core F) (msg ecc : List F) (k : Nat)
+    (en : Bool) (ec : F) (oe : Bool) (m' e' : List F)
+    (hm : msg.length = effK c k) (he : ecc.length = c.n - effK c k)
+    (hdec : decode core c msg ecc k en ec oe = .ok (m', e')) :
+    (m' = msg ∧ e' = ecc) ∨
+    2 * correctedErrors (msg ++ ecc) (m' ++ e') (detectedErasures msg ecc en oe ec)
+      + (detectedErasures msg ecc en oe ec).length ≤ c.n - effK c k := by
+  exact Pff.RSProofs.decode_full_block_within_radius c core msg ecc k en ec oe m' e' hm he hdec
 
 end Pff.RSSpec
